@@ -10,6 +10,8 @@
 //	                                                               (callee and arguments are evaluated at the
 //	                                                               go statement, as Go does; the harness decides
 //	                                                               per site: run for real, gate, or drop)
+//	import=P=Q  import "P"                                      ->  import P "Q" (a harness package with the
+//	                                                               API subset of P the file uses, e.g. os -> verifmc/vfs)
 //	sync  import "sync" / "sync/atomic"                          ->  verifmc/vsync, verifmc/vatomic
 //	                                                               (same API; every operation is a scheduling point
 //	                                                               under the controlled scheduler, the real primitive
@@ -69,7 +71,18 @@ func main() {
 		}
 		passes := map[string]bool{}
 		accessNames = map[string]bool{}
+		importMap = map[string]string{}
 		for _, p := range strings.Split(parts[1], ",") {
+			if strings.HasPrefix(p, "import=") {
+				// import=os=verifmc/vfs : the package imports verifmc/vfs under the name os
+				kv := strings.SplitN(p[len("import="):], "=", 2)
+				if len(kv) != 2 {
+					fail(fmt.Errorf("bad pass %q", p))
+				}
+				passes["import"] = true
+				importMap[kv[0]] = kv[1]
+				continue
+			}
 			if strings.HasPrefix(p, "access=") {
 				passes["access"] = true
 				for _, n := range strings.Split(p[len("access="):], "|") {
@@ -134,6 +147,9 @@ var srcOverlay = map[string]string{}
 // are announced to the scheduler (pass "access=a|b|c").
 var accessNames = map[string]bool{}
 
+// importMap: import path -> replacement path (pass "import=from=to"); the local name is kept.
+var importMap = map[string]string{}
+
 var timeFuncs = map[string]bool{"Now": true, "Since": true, "AfterFunc": true, "Sleep": true}
 
 func rewrite(src, dst, dir string, passes map[string]bool) (bool, error) {
@@ -174,6 +190,19 @@ func rewrite(src, dst, dir string, passes map[string]bool) (bool, error) {
 					im.Name = ast.NewIdent("atomic")
 				}
 				im.Path.Value = strconv.Quote("verifmc/vatomic")
+				changed = true
+			}
+		}
+	}
+
+	if passes["import"] {
+		for _, im := range f.Imports {
+			p, _ := strconv.Unquote(im.Path.Value)
+			if to, ok := importMap[p]; ok {
+				if im.Name == nil {
+					im.Name = ast.NewIdent(filepath.Base(p))
+				}
+				im.Path.Value = strconv.Quote(to)
 				changed = true
 			}
 		}
